@@ -1,8 +1,10 @@
 """C19 -- coroutine storage policies give every frame exclusive, correctly freed memory.
 
-spec/Storage/Storage.tla (one module; the policy and its initial size parameter are chosen in the initial
-state) is checked exhaustively for every policy (all create/complete sequences of three frame-size
-classes, overlapping lifetimes where the policy permits them) and for two threads on one
+spec/Storage/Storage.tla (one module; the policy, whether promise_extra_storage<T, policy> is layered over it, and
+its initial size parameter are chosen in the initial state) is checked exhaustively for every policy (all
+create/complete sequences of three frame-size classes, overlapping lifetimes where the policy permits them; storage
+objects constructed / moved / move-assigned / destroyed and the external buffer resized / shrunk / emptied / swapped
+by its owner between frames) and for two threads on one
 reusable_storage_mtsafe (scheduling points: the atomic operations on _busy; in a second configuration
 also every operator new/delete call of the storage).  Every edge of every state graph is replayed on
 the real policies by harness/storage_replay.cpp (quick: smaller bounds, no sanitizers; thorough: deeper
@@ -54,13 +56,15 @@ def header(mode, grain, obs="full"):
     """Shape family of the scenario's coroutines (the model is the same for all, sizes are abstract): 0 bodies with
     local arrays, 1 the same + 8 bytes (the other residue of the frame size modulo 16), 2/3 the library's
     callback_await_coro created through callback_await_alloc<Policy> (the with_allocator path scheduler.h uses) with a
-    callback of three sizes (+ 8).  Two-thread scenarios use 0/1 (the future of 2/3 has scheduling points of its own)."""
+    callback of three sizes (+ 8).  Two-thread scenarios use 0/1 (the future of 2/3 has scheduling points of its own),
+    scenarios under the attached-object layer 0 and 3 (one size of each residue, both creation paths: halves the build)."""
     def hdr(k, st0):
         # ex: promise_extra_storage<T, policy>; copy: placement / buffer / stack storages only refer to memory, every
         # other creation of the scenario goes through a copy of the storage object
         return {"policy": st0["env"]["pol"], "ex": st0["env"]["ex"], "mode": mode, "grain": grain,
                 "kill": "destroy" if k % 3 == 2 else "finish", "copy": k % 5 in (1, 3),
-                "init": st0["env"]["init"], "nslots": NSLOTS, "fam": k % (2 if mode == "mt" else 4), "obs": obs}
+                "init": st0["env"]["init"], "nslots": NSLOTS, "obs": obs,
+                "fam": k % 2 if mode == "mt" else (0, 3)[k % 2] if st0["env"]["ex"] else k % 4}
     return hdr
 
 
@@ -213,8 +217,21 @@ def run(ctx):
                "quantified over")
     ctx.assume("reusable_storage, placement_alloc and reusable_buffer_storage serve one live frame at a time and "
                "placement_alloc's buffer is large enough (documented preconditions): no overlapping lifetimes are "
-               "generated for them; default, mtsafe, stack (one storage object + alloca buffer per call, as "
-               "scheduler.h uses it) and extra<T> are exercised with up to 3 overlapping frames")
+               "generated for them (one live frame per storage OBJECT); default, mtsafe and stack (one storage object + "
+               "alloca buffer per call, as scheduler.h uses it) are exercised with up to 3 overlapping frames")
+    ctx.assume("promise_extra_storage<T, Base> is a layer over every policy as Base (16-byte T; stack_storage, placement_alloc "
+               "and reusable_buffer_storage through a default constructible derived class, since the layer default-constructs "
+               "its base); every Base is wrapped in a recording class that observes the sizes its alloc / dealloc get; one "
+               "thread; two of the four shape families")
+    ctx.assume("storage objects are constructed, move-constructed, move-assigned (both directions, self) and destroyed only "
+               "while no frame is alive, for the classes whose objects carry state and are movable at HEAD: reusable_storage "
+               "and promise_extra_storage over reusable_storage / default_storage (a storage whose factory was moved out is "
+               "not used again); reusable_storage_mtsafe is neither copyable nor movable; placement_alloc, "
+               "reusable_buffer_storage and stack_storage objects only refer to memory: scenarios alternately create through "
+               "a copy of the object (copy ASSIGNMENT of placement_alloc to another buffer is not exercised)")
+    ctx.assume("the owner of reusable_buffer_storage's vector uses it only while no frame is alive (documented): resize to "
+               "a frame-class size, shrink_to_fit, clear+shrink_to_fit, move out, swap with a fresh vector; std::vector "
+               "reallocation (new block, then old released; exact size when growing by more than a factor 2) is libstdc++'s")
     ctx.assume("the global allocator is modelled as 'lowest free slot' (the replayer runs the library on such an "
                "allocator): blocks never overlap each other and a freed address is reused at once; other reuse "
                "orders are not explored")
@@ -222,5 +239,4 @@ def run(ctx):
                "operator new/delete calls; memory orders and the unsynchronised plain read of _ptr in dealloc are "
                "C03 matters")
     ctx.assume("static_storage does not satisfy the Storage concept (non-static dealloc) and cannot be used with "
-               "with_allocator: not covered; reusable_buffer_storage is instantiated with std::vector<uint64_t>, "
-               "extra<T> over default_storage with a 16-byte T")
+               "with_allocator: not covered; reusable_buffer_storage is instantiated with std::vector<uint64_t>")
